@@ -27,6 +27,7 @@ import (
 // Conn represents a database connection.
 type Conn struct {
 	net.Conn
+	closeMu   sync.Mutex
 	isClosed  bool
 	id        DatabaseID
 	authrized bool
@@ -57,6 +58,9 @@ func newConnWith(conn net.Conn, tlsState *tls.ConnectionState) *Conn {
 
 // Close closes the connection.
 func (conn *Conn) Close() error {
+	// Close is called by the connection's own goroutine and by Server.Stop.
+	conn.closeMu.Lock()
+	defer conn.closeMu.Unlock()
 	if conn.isClosed {
 		return nil
 	}
